@@ -302,4 +302,64 @@ def msFull (c : Nat) (endpoints : Bool) : List Slot :=
     (if c < 2 then [] else (List.range' 1 (c - 1)).map (fun j => Slot.frac j c)) ++
     (if endpoints then [Slot.goal] else [])
 
+/-! ### `ConstrainedMotionValidator` (constrained state spaces)
+
+The subdivision of a constrained motion is the manifold traversal itself
+(`ConstrainedStateSpace::discreteGeodesic(s1, s2, false, …)`): it visits states `g_1, g_2, …` one step
+`delta` apart, asks `isValid` about each and stops at the first invalid one.  `m` is the number of
+states it visits when all are valid, `geom` whether it then ends within tolerance of `s2`
+(geometry: projection failures, wandering, no progress are C16's business and enter only through
+`m` and `geom`).  `v j` is the validity of `g_j` for `1 ≤ j ≤ m` and `v (m+1)` that of `s2` itself;
+`sat` is `constraint->isSatisfied(s2)`.  (The empty-list branch — an Atlas traversal that cannot
+start — is modelled in `OmplModel.Constrained`, C16.) -/
+
+structure CResult where
+  verdict : Bool
+  /-- `some k`: `lastValid.first` (when non-null) received the traversal's state `g_k` (`g_0 = s1`) -/
+  back : Option Nat
+  /-- `lastValid.second` was written -/
+  wroteSecond : Bool
+  queries : List Nat
+  dValid : Nat
+  dInvalid : Nat
+deriving Repr, DecidableEq
+
+/-- the traversal: `(reached, indices asked, index of the last state stored)`. -/
+def traverse (m : Nat) (geom : Bool) (v : Nat → Bool) : Bool × List Nat × Nat :=
+  match (linScan v 1 m).2 with
+  | some j => (false, (linScan v 1 m).1, j - 1)
+  | none => (geom, (linScan v 1 m).1, m)
+
+/-- `checkMotion(s1, s2)` as the code stands in /repo:
+`isSatisfied(s2) && discreteGeodesic(s1, s2, false)` — `s2` is never handed to `isValid` and no
+counter moves. -/
+def constrained2Old (sat : Bool) (m : Nat) (geom : Bool) (v : Nat → Bool) : CResult :=
+  if !sat then ⟨false, none, false, [], 0, 0⟩
+  else ⟨(traverse m geom v).1, none, false, (traverse m geom v).2.1, 0, 0⟩
+
+/-- `checkMotion(s1, s2, lastValid)` as the code stands in /repo: `lastValid` is written only when the
+traversal stopped early *and* `lastValid.first` is non-null; the verdict is
+`isSatisfied(s2) && reached`; no counter moves. -/
+def constrained3Old (hasFirst sat : Bool) (m : Nat) (geom : Bool) (v : Nat → Bool) : CResult :=
+  if !(traverse m geom v).1 && hasFirst then
+    ⟨sat && (traverse m geom v).1, some (traverse m geom v).2.2, true, (traverse m geom v).2.1, 0, 0⟩
+  else ⟨sat && (traverse m geom v).1, none, false, (traverse m geom v).2.1, 0, 0⟩
+
+/-- `checkMotion(s1, s2)` after the proposed fixes F120 (count) and F121 (validate the end state):
+`isValid(s2) && isSatisfied(s2) && discreteGeodesic(…)`, then exactly one counter. -/
+def constrained2 (sat : Bool) (m : Nat) (geom : Bool) (v : Nat → Bool) : CResult :=
+  if !v (m + 1) then ⟨false, none, false, [m + 1], 0, 1⟩
+  else if !sat then ⟨false, none, false, [m + 1], 0, 1⟩
+  else if (traverse m geom v).1 then ⟨true, none, false, (m + 1) :: (traverse m geom v).2.1, 1, 0⟩
+  else ⟨false, none, false, (m + 1) :: (traverse m geom v).2.1, 0, 1⟩
+
+/-- `checkMotion(s1, s2, lastValid)` after F120, F121 and F122: the verdict is
+`reached && isSatisfied(s2) && isValid(s2)` (short-circuit, so `s2` is asked about last), every
+failure writes `lastValid.second` and, when non-null, `lastValid.first := g_back`. -/
+def constrained3 (hasFirst sat : Bool) (m : Nat) (geom : Bool) (v : Nat → Bool) : CResult :=
+  let askEnd := (traverse m geom v).1 && sat
+  let q := (traverse m geom v).2.1 ++ (if askEnd then [m + 1] else [])
+  if askEnd && v (m + 1) then ⟨true, none, false, q, 1, 0⟩
+  else ⟨false, if hasFirst then some (traverse m geom v).2.2 else none, true, q, 0, 1⟩
+
 end OmplModel.Motion
